@@ -4,6 +4,7 @@ from __future__ import annotations
 
 import contextlib
 import csv
+import io
 import logging
 import os
 import re
@@ -161,10 +162,21 @@ class Rec:
         self.error = None
         self.pool = None
         self.frame_cols = []     # per mixed_rank_graph call: the column order of the frame that is ranked
+        self.singles = None      # `summary=True`: rows [name, score | nan] of feature_singles.tsv (None if not written)
+        self.summary_error = None   # `summary=True`: the exception outrank_task_result_summary raised
 
 
-def run_inprocess(data_text: str, pool=None, **argkw) -> Rec:
-    """the real `outrank_task_conduct_ranking` in a temp cwd (the checkpoint goes to the cwd), wrapped from outside"""
+def read_singles_tsv(path):
+    """rows [Feature, score] of feature_singles.tsv in file order; an empty score cell (pandas' NaN) becomes nan"""
+    with open(path, newline='', encoding='utf-8') as fh:
+        recs = list(csv.reader(fh, delimiter='\t', quotechar='"'))
+    return [[r[0], float(r[1]) if r[1] != '' else float('nan')] for r in recs[1:] if len(r) == 2]
+
+
+def run_inprocess(data_text: str, pool=None, summary=False, **argkw) -> Rec:
+    """the real `outrank_task_conduct_ranking` in a temp cwd (the checkpoint goes to the cwd), wrapped from outside.
+    `summary`: afterwards – as `--task all` does – the real `outrank_task_result_summary` with the SAME args on the output
+    folder the ranking task wrote (only if pairwise_ranks.tsv exists); feature_singles.tsv is read into `rec.singles`."""
     from outrank import core_ranking as cr
     from outrank import task_ranking as tr
     rec = Rec()
@@ -230,6 +242,16 @@ def run_inprocess(data_text: str, pool=None, **argkw) -> Rec:
         p = os.path.join(d, 'out', 'pairwise_ranks.tsv')
         if os.path.exists(p):
             rec.final = read_rank_tsv(p)
+            if summary and rec.error is None:
+                from outrank import task_summary as ts
+                try:
+                    with contextlib.redirect_stdout(io.StringIO()):       # `tldr` prints the head of the frame
+                        ts.outrank_task_result_summary(args)
+                except Exception as e:      # noqa: BLE001 – a crash of the task is an observation
+                    rec.summary_error = f'{type(e).__name__}: {e}'
+                ps = os.path.join(d, 'out', 'feature_singles.tsv')
+                if os.path.exists(ps):
+                    rec.singles = read_singles_tsv(ps)
     finally:
         cr.compute_batch_ranking, cr.checkpoint_importances_df, tr.estimate_importances_minibatches = orig_cbr, orig_ck, orig_est
         cr.mixed_rank_graph = orig_mrg
